@@ -3,6 +3,9 @@ import GeoVerif.Model.ConicKernels
 import GeoVerif.Spec.RealInst
 import GeoVerif.Proofs.Conic
 import GeoVerif.Proofs.ConicDD
+import GeoVerif.Proofs.ConicInit
+import GeoVerif.Proofs.ConicSeries
+import GeoVerif.Proofs.ConicLimits
 import Mathlib.Tactic.Ring
 import Mathlib.Tactic.LinearCombination
 import Mathlib.Tactic.FieldSimp
@@ -1147,5 +1150,345 @@ example : ∃ (E : Ell ℝ) (tphi : ℝ), 0 < E.f ∧ 0 < E.e2 ∧ E.e2 < 1 ∧
       positivity
     simp only [zero_div, hz, hem]
     nlinarith
+
+/-! ## `Init` of both conic classes, every kind of ellipsoid, and the series of `AlbersEqualArea` (deepening round; the proofs are in
+`Proofs/ConicInit.lean`, `Proofs/ConicSeries.lean`, `Proofs/ConicLimits.lean`) -/
+
+section Deepening
+open GeoVerif.Proofs.ConicInit (tchiR)
+open GeoVerif.Proofs.ConicSeries (axPoly axCoef hsym dd1C dd1Sum dd1State Psum Rsum dd2ee dd2Term dd2Sum dd2State dd2Negl dd2A)
+
+/-! ### (a) `LambertConformalConic::Init`: the careful evaluation of `1 − n` -/
+
+/-- **The careful `1 − n` is `1 − n`.**  `t1 ≠ t2` are the tangents of the ordered parallels, `x1, x2` their `ξ = eatanhe(sin φ)`,
+    `tchiR t x = cosh x · t − sinh x · sec φ` the conformal tangent; `den` and `n` are any numbers with `den·Δ = ψ2 − ψ1 ≠ 0`,
+    `n·den·Δ = ln sec β2 − ln sec β1` (`ψ = arsinh tan χ`), and `Deatanhe` is the divided difference of `eatanhe` on the three pairs
+    `(1, sphi1)`, `(1, sphi2)`, `(sphi1, sphi2)` (true on oblate and spherical ellipsoids, and on prolate ones outside the class of
+    finding F80).  Then the value the code multiplies into `nc² = (1 − n)(1 + n)` is exactly `1 − n`. -/
+theorem lcc_one_minus_n (E : Ell ℝ) (t1 t2 x1 x2 den n : ℝ) (hfm : 0 < E.fm) (h12 : t1 ≠ t2)
+    (hDe1 : Deatanhe E.e2 E.es 1 (t1 / hyp t1) * (1 - t1 / hyp t1) = eatanhe 1 E.es - x1)
+    (hDe2 : Deatanhe E.e2 E.es 1 (t2 / hyp t2) * (1 - t2 / hyp t2) = eatanhe 1 E.es - x2)
+    (hDe12 : Deatanhe E.e2 E.es (t1 / hyp t1) (t2 / hyp t2) * (t1 / hyp t1 - t2 / hyp t2) = x1 - x2)
+    (hden : den * (t2 - t1) = Real.arsinh (tchiR t2 x2) - Real.arsinh (tchiR t1 x1)) (hden0 : den ≠ 0)
+    (hn : n * den * (t2 - t1) = Real.log (hyp (E.fm * t2)) - Real.log (hyp (E.fm * t1))) :
+    lccOneMinusN E den
+        (t1 / hyp t1) t1 (hyp t1) (Real.sinh x1) (hyp (Real.sinh x1)) x1 (tchiR t1 x1) (hyp (tchiR t1 x1)) (E.fm * t1) (hyp (E.fm * t1))
+        (t2 / hyp t2) t2 (hyp t2) (Real.sinh x2) (hyp (Real.sinh x2)) x2 (tchiR t2 x2) (hyp (tchiR t2 x2)) (E.fm * t2) (hyp (E.fm * t2))
+      = 1 - n :=
+  Proofs.ConicInit.lccOneMinusN_eq E t1 t2 x1 x2 den n hfm h12 hDe1 hDe2 hDe12 hden hden0 hn
+
+/-- the isometric latitude `arsinh tan χ = arsinh tan φ − ξ` -/
+theorem arsinh_tchi (t x : ℝ) : Real.arsinh (tchiR t x) = Real.arsinh t - x := Proofs.ConicInit.arsinh_tchiR t x
+
+/-- **`n = num/den` of the two-parallel `Init` for any ellipsoid**: `den·Δ = ψ2 − ψ1` and `n·den·Δ = ln sec β2 − ln sec β1` whenever
+    `Deatanhe(sphi2, sphi1)` is the divided difference of `ξ` — Snyder's (15-8) without a restriction on the sign of `e²` -/
+theorem lcc_n_closed (E : Ell ℝ) (t1 t2 x1 x2 : ℝ) (h12 : t1 ≠ t2)
+    (hDe : Deatanhe E.e2 E.es (t2 / hyp t2) (t1 / hyp t1) * (t2 / hyp t2 - t1 / hyp t1) = x2 - x1) :
+    let nd := lccNraw E (t1 / hyp t1) t1 (hyp t1) (E.fm * t1) (hyp (E.fm * t1)) (t2 / hyp t2) t2 (hyp t2) (E.fm * t2) (hyp (E.fm * t2))
+    nd.2 * (t2 - t1) = (Real.arsinh t2 - x2) - (Real.arsinh t1 - x1) ∧
+    (nd.2 ≠ 0 → nd.1 * nd.2 * (t2 - t1) = Real.log (hyp (E.fm * t2)) - Real.log (hyp (E.fm * t1))) :=
+  Proofs.ConicInit.lccNraw_closed E t1 t2 x1 x2 h12 hDe
+
+/-- **`nc` of the branch `n ≥ 1/4` on an oblate ellipsoid**: `lccNcCareful = √(max 0 (1 − n)·(1 + n))` for the `n`, `den` that `Init` computes -/
+theorem lcc_nc_careful_oblate (E : Ell ℝ) (t1 t2 : ℝ) (hfm : 0 < E.fm) (h12 : t1 ≠ t2) (hes : 0 < E.es) (hes1 : E.es < 1) (he2 : E.e2 = E.es ^ 2)
+    (hψ : Real.arsinh t2 - eatanhe (t2 / hyp t2) E.es ≠ Real.arsinh t1 - eatanhe (t1 / hyp t1) E.es) :
+    let x1 := eatanhe (t1 / hyp t1) E.es
+    let x2 := eatanhe (t2 / hyp t2) E.es
+    let nd := lccNraw E (t1 / hyp t1) t1 (hyp t1) (E.fm * t1) (hyp (E.fm * t1)) (t2 / hyp t2) t2 (hyp t2) (E.fm * t2) (hyp (E.fm * t2))
+    lccNcCareful E nd.1 nd.2
+        (t1 / hyp t1) t1 (hyp t1) (Real.sinh x1) (hyp (Real.sinh x1)) x1 (tchiR t1 x1) (hyp (tchiR t1 x1)) (E.fm * t1) (hyp (E.fm * t1))
+        (t2 / hyp t2) t2 (hyp t2) (Real.sinh x2) (hyp (Real.sinh x2)) x2 (tchiR t2 x2) (hyp (tchiR t2 x2)) (E.fm * t2) (hyp (E.fm * t2))
+      = Real.sqrt (max 0 (1 - nd.1) * (1 + nd.1)) :=
+  Proofs.ConicInit.lccNcCareful_oblate E t1 t2 hfm h12 hes hes1 he2 hψ
+
+/-- **the same on a prolate or spherical ellipsoid** (`es ≤ 0`, `e² = −es²`), under exactly the condition whose failure is finding F80:
+    the products `e²·x·y` of the three pairs `Deatanhe` is called with stay above `−1` -/
+theorem lcc_nc_careful_prolate (E : Ell ℝ) (t1 t2 : ℝ) (hfm : 0 < E.fm) (h12 : t1 ≠ t2) (hes : E.es ≤ 0) (he2 : E.e2 = -(E.es ^ 2))
+    (hp1 : -1 < E.es * 1 * (E.es * (t1 / hyp t1))) (hp2 : -1 < E.es * 1 * (E.es * (t2 / hyp t2)))
+    (hp12 : -1 < E.es * (t1 / hyp t1) * (E.es * (t2 / hyp t2)))
+    (hψ : Real.arsinh t2 - eatanhe (t2 / hyp t2) E.es ≠ Real.arsinh t1 - eatanhe (t1 / hyp t1) E.es) :
+    let x1 := eatanhe (t1 / hyp t1) E.es
+    let x2 := eatanhe (t2 / hyp t2) E.es
+    let nd := lccNraw E (t1 / hyp t1) t1 (hyp t1) (E.fm * t1) (hyp (E.fm * t1)) (t2 / hyp t2) t2 (hyp t2) (E.fm * t2) (hyp (E.fm * t2))
+    lccNcCareful E nd.1 nd.2
+        (t1 / hyp t1) t1 (hyp t1) (Real.sinh x1) (hyp (Real.sinh x1)) x1 (tchiR t1 x1) (hyp (tchiR t1 x1)) (E.fm * t1) (hyp (E.fm * t1))
+        (t2 / hyp t2) t2 (hyp t2) (Real.sinh x2) (hyp (Real.sinh x2)) x2 (tchiR t2 x2) (hyp (tchiR t2 x2)) (E.fm * t2) (hyp (E.fm * t2))
+      = Real.sqrt (max 0 (1 - nd.1) * (1 + nd.1)) :=
+  Proofs.ConicInit.lccNcCareful_prolate E t1 t2 hfm h12 hes he2 hp1 hp2 hp12 hψ
+
+/-- non-vacuity (sphere, parallels at the equator and at 45°): every hypothesis of `lcc_nc_careful_prolate` holds -/
+example : ∃ (E : Ell ℝ) (t1 t2 : ℝ), 0 < E.fm ∧ t1 ≠ t2 ∧ E.es ≤ 0 ∧ E.e2 = -(E.es ^ 2) ∧
+    -1 < E.es * 1 * (E.es * (t1 / hyp t1)) ∧ -1 < E.es * 1 * (E.es * (t2 / hyp t2)) ∧ -1 < E.es * (t1 / hyp t1) * (E.es * (t2 / hyp t2)) ∧
+    Real.arsinh t2 - eatanhe (t2 / hyp t2) E.es ≠ Real.arsinh t1 - eatanhe (t1 / hyp t1) E.es := by
+  have hes : (⟨1, 0⟩ : Ell ℝ).es = 0 := by simp [Ell.es, Ell.e2, ltb_real, zero_real, one_real, two_real]
+  have he2 : (⟨1, 0⟩ : Ell ℝ).e2 = 0 := by simp [Ell.e2]
+  refine ⟨⟨1, 0⟩, 0, 1, by simp [Ell.fm, one_real], by norm_num, by rw [hes], by rw [hes, he2]; norm_num, by rw [hes]; norm_num,
+    by rw [hes]; norm_num, by rw [hes]; norm_num, ?_⟩
+  rw [hes]
+  simp only [eatanhe, ltb_real, zero_real, lt_irrefl, decide_false, Bool.false_eq_true, if_false, neg_zero, zero_mul, sub_zero]
+  intro h
+  have := Real.arsinh_injective h
+  norm_num at this
+
+/-! ### (b) `AlbersEqualArea::Init`: `s`, `1 − s`, `C` and the Newton iteration -/
+
+/-- **`s = n qZ/C`, `sm1 = 1 − s` and `C` as coded are the closed forms in the comments of the code** (two distinct parallels given by
+    sine/cosine pairs, `tan φ = s/c`).  `A1, A2, AZ` are `atanhee` at the two sines and at 1; `Datanhee(sphi2, sphi1)` is their divided
+    difference, `dd` the second divided difference on the nodes `1, sphi1, sphi2`, and the authalic sines `txi/hyp txi` are `Q/QZ`
+    (`txif_closed`, `txif_closed_prolate`).  With `scbet² = 1 + (fm tan φ)² = 1/m²`:
+    `s = (tbet2² − tbet1²)/(scbet2² sxi2 − scbet1² sxi1)`, `sm1 = 1 − s`, `C = (scbet2² sxi2 − scbet1² sxi1)/(scbet2² scbet1² (sxi2 − sxi1))`. -/
+theorem alb_s_sm1_C_closed (E : Ell ℝ) (s1 c1 s2 c2 txi1 txi2 dd A1 A2 AZ : ℝ)
+    (he2m : E.e2m ≠ 0) (hc1 : 0 < c1) (hc2 : 0 < c2) (hsc1 : s1 ^ 2 + c1 ^ 2 = 1) (hsc2 : s2 ^ 2 + c2 ^ 2 = 1)
+    (h12 : s1 / c1 ≠ s2 / c2) (hAZ : E.atanhee 1 = AZ) (hDA : E.Datanhee s2 s1 * (s2 - s1) = A2 - A1)
+    (hQZ : 1 / E.e2m + AZ ≠ 0) (hw1 : 1 - E.e2 * s1 ^ 2 ≠ 0) (hw2 : 1 - E.e2 * s2 ^ 2 ≠ 0)
+    (hx1 : txi1 / hyp txi1 * (1 / E.e2m + AZ) = s1 / (1 - E.e2 * s1 ^ 2) + A1)
+    (hx2 : txi2 / hyp txi2 * (1 / E.e2m + AZ) = s2 / (1 - E.e2 * s2 ^ 2) + A2)
+    (hdd : dd * (s2 - s1) = (AZ - A2) / (1 - s2) - (AZ - A1) / (1 - s1)) :
+    let r := albSC E s1 c1 (s1 / c1) s2 c2 (s2 / c2) txi1 txi2 dd
+    let scb12 := 1 + (E.fm * (s1 / c1)) ^ 2
+    let scb22 := 1 + (E.fm * (s2 / c2)) ^ 2
+    let sx1 := txi1 / hyp txi1
+    let sx2 := txi2 / hyp txi2
+    scb22 * sx2 - scb12 * sx1 ≠ 0 →
+      r.s = ((E.fm * (s2 / c2)) ^ 2 - (E.fm * (s1 / c1)) ^ 2) / (scb22 * sx2 - scb12 * sx1) ∧ r.sm1 = 1 - r.s ∧
+      (sx2 ≠ sx1 → r.C = (scb22 * sx2 - scb12 * sx1) / (scb22 * scb12 * (sx2 - sx1))) :=
+  Proofs.ConicInit.albSC_closed E s1 c1 s2 c2 txi1 txi2 dd A1 A2 AZ he2m hc1 hc2 hsc1 hsc2 h12 hAZ hDA hQZ hw1 hw2 hx1 hx2 hdd
+
+/-- non-vacuity of `alb_s_sm1_C_closed`: the sphere (`atanhee = id`, `Q(s) = 2s`, `QZ = 2`, authalic = geographic latitude), parallels at
+    the equator and at `sin φ = 3/5` -/
+example : ∃ (E : Ell ℝ) (s1 c1 s2 c2 txi1 txi2 dd A1 A2 AZ : ℝ),
+    E.e2m ≠ 0 ∧ 0 < c1 ∧ 0 < c2 ∧ s1 ^ 2 + c1 ^ 2 = 1 ∧ s2 ^ 2 + c2 ^ 2 = 1 ∧ s1 / c1 ≠ s2 / c2 ∧ E.atanhee 1 = AZ ∧
+    E.Datanhee s2 s1 * (s2 - s1) = A2 - A1 ∧ 1 / E.e2m + AZ ≠ 0 ∧ 1 - E.e2 * s1 ^ 2 ≠ 0 ∧ 1 - E.e2 * s2 ^ 2 ≠ 0 ∧
+    txi1 / hyp txi1 * (1 / E.e2m + AZ) = s1 / (1 - E.e2 * s1 ^ 2) + A1 ∧ txi2 / hyp txi2 * (1 / E.e2m + AZ) = s2 / (1 - E.e2 * s2 ^ 2) + A2 ∧
+    dd * (s2 - s1) = (AZ - A2) / (1 - s2) - (AZ - A1) / (1 - s1) ∧
+    (1 + (E.fm * (s2 / c2)) ^ 2) * (txi2 / hyp txi2) - (1 + (E.fm * (s1 / c1)) ^ 2) * (txi1 / hyp txi1) ≠ 0 := by
+  have he2 : (⟨1, 0⟩ : Ell ℝ).e2 = 0 := by simp [Ell.e2]
+  have hem : (⟨1, 0⟩ : Ell ℝ).e2m = 1 := by simp [Ell.e2m, he2, one_real]
+  have hfm : (⟨1, 0⟩ : Ell ℝ).fm = 1 := by simp [Ell.fm, one_real]
+  have hat : ∀ x : ℝ, (⟨1, 0⟩ : Ell ℝ).atanhee x = x := by
+    intro x; simp [Ell.atanhee, atanhee, ltb_real, zero_real]
+  have hh : hyp (3 / 4 : ℝ) = 5 / 4 := by
+    rw [hyp_real]; rw [show (1 : ℝ) + (3 / 4) ^ 2 = (5 / 4) ^ 2 by norm_num]; exact Real.sqrt_sq (by norm_num)
+  have hh0 : hyp (0 : ℝ) = 1 := by rw [hyp_real]; norm_num
+  refine ⟨⟨1, 0⟩, 0, 1, 3 / 5, 4 / 5, 0, 3 / 4, 0, 0, 3 / 5, 1, ?_, by norm_num, by norm_num, by norm_num, by norm_num, by norm_num, hat 1, ?_, ?_,
+    ?_, ?_, ?_, ?_, ?_, ?_⟩
+  · rw [hem]; norm_num
+  · simp [Ell.Datanhee, Datanhee, atanhee, he2, eqb_real, ltb_real, zero_real, one_real]
+  · rw [hem]; norm_num
+  · rw [he2]; norm_num
+  · rw [he2]; norm_num
+  · rw [hem, he2, hh0]; norm_num
+  · rw [hem, he2, hh]; norm_num
+  · norm_num
+  · rw [hfm, hh, hh0]; norm_num
+
+/-- **The function whose zero the Newton iteration of `Init` seeks, in closed form**: with `sphi0 = tan φ0/sec φ0`,
+    `x = (1 − sphi0)/(1 − e² sphi0)`, `axm1` the exact `atanhee(x)/x − 1` and `atanhee(1) − atanhee(sphi0) = atanhee(x)`, the coded
+    `u = sm1·g − s/qZ·(D − g(A + B))` is `sm1·g − (s/qZ)(1 − g (qZ − q0))`, `g = scbet0² sphi0`, `q0 = (1 − e²)(sphi0/(1 − e² sphi0²) + atanhee(sphi0))` -/
+theorem alb_newton_u_closed (E : Ell ℝ) (s sm1 t0 axm1 A0 AZ : ℝ) (he2m : E.e2m ≠ 0)
+    (hw : 1 - E.e2 * (t0 / hyp t0) ^ 2 ≠ 0) (hv : 1 - E.e2 * (t0 / hyp t0) ≠ 0) (hAZ : E.atanhee 1 = AZ)
+    (hax : (1 + axm1) * ((1 - t0 / hyp t0) / (1 - E.e2 * (t0 / hyp t0))) = AZ - A0) :
+    (albNewtonU E s sm1 t0 axm1).1 =
+      sm1 * ((1 + (E.fm * t0) ^ 2) * (t0 / hyp t0)) -
+        s / E.qZ * (1 - (1 + (E.fm * t0) ^ 2) * (t0 / hyp t0) *
+          (E.qZ - E.e2m * (t0 / hyp t0 / (1 - E.e2 * (t0 / hyp t0) ^ 2) + A0))) :=
+  Proofs.ConicInit.albNewtonU_closed E s sm1 t0 axm1 A0 AZ he2m hw hv hAZ hax
+
+example : ∃ (E : Ell ℝ) (t0 axm1 A0 AZ : ℝ), E.e2m ≠ 0 ∧ 1 - E.e2 * (t0 / hyp t0) ^ 2 ≠ 0 ∧ 1 - E.e2 * (t0 / hyp t0) ≠ 0 ∧ E.atanhee 1 = AZ ∧
+    (1 + axm1) * ((1 - t0 / hyp t0) / (1 - E.e2 * (t0 / hyp t0))) = AZ - A0 := by
+  have he2 : (⟨1, 0⟩ : Ell ℝ).e2 = 0 := by simp [Ell.e2]
+  have hem : (⟨1, 0⟩ : Ell ℝ).e2m = 1 := by simp [Ell.e2m, he2, one_real]
+  have hh0 : hyp (0 : ℝ) = 1 := by rw [hyp_real]; norm_num
+  refine ⟨⟨1, 0⟩, 0, 0, 0, 1, by rw [hem]; norm_num, by rw [he2]; norm_num, by rw [he2]; norm_num,
+    by simp [Ell.atanhee, atanhee, ltb_real, zero_real], by rw [he2, hh0]; norm_num⟩
+
+/-- **A fixed point of the Newton map is a zero of `u`** (the derivative `du` being finite and non-zero), and the loop stays there -/
+theorem alb_newton_fixed_point (E : Ell ℝ) (s sm1 t0 stol : ℝ)
+    (hdu : (albNewtonU E s sm1 t0 (atanhxm1 (albNewtonArg E t0))).2.1 ≠ 0) :
+    (albNewtonStep E s sm1 t0 = 0 ↔ (albNewtonU E s sm1 t0 (atanhxm1 (albNewtonArg E t0))).1 = 0) ∧
+      (albNewtonStep E s sm1 t0 = 0 → ∀ n, albNewtonLoop E s sm1 stol n t0 = t0) :=
+  ⟨Proofs.ConicInit.albNewtonStep_zero_iff E s sm1 t0 hdu, fun h n => Proofs.ConicInit.albNewtonLoop_fixed E s sm1 stol t0 h n⟩
+
+/-- **…and a zero of `u` (with `sm1 = 1 − s`) is the solution of the defining equation of `tan φ0`**:
+    `s = sphi0 qZ/(m0² + sphi0 q0)`, written without denominators as `g qZ = s (1 + g q0)`, `g = scbet0² sphi0 = sphi0/m0²` -/
+theorem alb_defining_equation (s g qZ q0 : ℝ) (hq : qZ ≠ 0) :
+    (1 - s) * g - s / qZ * (1 - g * (qZ - q0)) = 0 ↔ g * qZ = s * (1 + g * q0) :=
+  Proofs.ConicInit.alb_u_zero_iff s g qZ q0 hq
+
+/-! ### (c) prolate and spherical ellipsoids -/
+
+/-- `Datanhee` on a prolate ellipsoid is the divided difference of `atan(e x)/e` for *every* pair (the guard `x·y < 0` of the code selects
+    the branch of the arctangent — the guard `LambertConformalConic::Deatanhe` lacks, finding F80) -/
+theorem Datanhee_dd_prolate (f e x y : ℝ) (hf : f < 0) (he : 0 < e) (hxy : x ≠ y) :
+    Datanhee f (-(e ^ 2)) e x y = (atanhee f e x - atanhee f e y) / (x - y) :=
+  Proofs.ConicInit.Datanhee_dd_prolate f e x y hf he hxy
+
+example : (-1 : ℝ) < 0 ∧ (0 : ℝ) < Real.sqrt 3 ∧ (1 / 2 : ℝ) ≠ -1 / 2 := ⟨by norm_num, Real.sqrt_pos.mpr (by norm_num), by norm_num⟩
+
+/-- on a sphere `atanhee` is the identity and `Datanhee` its divided difference 1 -/
+theorem Datanhee_dd_sphere (e x y : ℝ) (hxy : x ≠ y) : Datanhee 0 0 e x y = (atanhee 0 e x - atanhee 0 e y) / (x - y) :=
+  Proofs.ConicInit.Datanhee_dd_sphere e x y hxy
+
+/-- **`txif` is the authalic tangent for any ellipsoid** on which `Datanhee(1, ±sin φ)` are divided differences of an odd `atanhee`:
+    `tan ξ = Q/√(QZ² − Q²)` -/
+theorem txif_closed_gen (E : Ell ℝ) (tphi : ℝ) (hem : E.e2m ≠ 0) (hw : 1 - E.e2 * (tphi / hyp tphi) ^ 2 ≠ 0)
+    (hD1 : E.Datanhee 1 (tphi / hyp tphi) = (E.atanhee 1 - E.atanhee (tphi / hyp tphi)) / (1 - tphi / hyp tphi))
+    (hD2 : E.Datanhee 1 (-(tphi / hyp tphi)) = (E.atanhee 1 + E.atanhee (tphi / hyp tphi)) / (1 + tphi / hyp tphi))
+    (hQ : (tphi / hyp tphi / (1 - E.e2 * (tphi / hyp tphi) ^ 2) + E.atanhee (tphi / hyp tphi)) ^ 2 < (1 / E.e2m + E.atanhee 1) ^ 2) :
+    txif E tphi =
+      (tphi / hyp tphi / (1 - E.e2 * (tphi / hyp tphi) ^ 2) + E.atanhee (tphi / hyp tphi)) /
+        Real.sqrt ((1 / E.e2m + E.atanhee 1) ^ 2 -
+          (tphi / hyp tphi / (1 - E.e2 * (tphi / hyp tphi) ^ 2) + E.atanhee (tphi / hyp tphi)) ^ 2) :=
+  Proofs.ConicInit.txif_of_dd E tphi hem hw hD1 hD2 hQ
+
+/-- **`txif` is the authalic tangent on a prolate ellipsoid** -/
+theorem txif_closed_prolate (E : Ell ℝ) (tphi : ℝ) (hf : E.f < 0) (he2 : E.e2 < 0)
+    (hQ : (tphi / hyp tphi / (1 - E.e2 * (tphi / hyp tphi) ^ 2) + E.atanhee (tphi / hyp tphi)) ^ 2 < (1 / E.e2m + E.atanhee 1) ^ 2) :
+    txif E tphi =
+      (tphi / hyp tphi / (1 - E.e2 * (tphi / hyp tphi) ^ 2) + E.atanhee (tphi / hyp tphi)) /
+        Real.sqrt ((1 / E.e2m + E.atanhee 1) ^ 2 -
+          (tphi / hyp tphi / (1 - E.e2 * (tphi / hyp tphi) ^ 2) + E.atanhee (tphi / hyp tphi)) ^ 2) :=
+  Proofs.ConicInit.txif_prolate E tphi hf he2 hQ
+
+/-- non-vacuity: `f = −1` (`e² = −3`) at the equator -/
+example : ∃ (E : Ell ℝ) (tphi : ℝ), E.f < 0 ∧ E.e2 < 0 ∧
+    (tphi / hyp tphi / (1 - E.e2 * (tphi / hyp tphi) ^ 2) + E.atanhee (tphi / hyp tphi)) ^ 2 < (1 / E.e2m + E.atanhee 1) ^ 2 := by
+  have he2 : (⟨1, -1⟩ : Ell ℝ).e2 = -3 := by simp only [Ell.e2, two_real]; norm_num
+  have hem : (⟨1, -1⟩ : Ell ℝ).e2m = 4 := by simp only [Ell.e2m, he2, one_real]; norm_num
+  refine ⟨⟨1, -1⟩, 0, by norm_num, by rw [he2]; norm_num, ?_⟩
+  have hz : (⟨1, -1⟩ : Ell ℝ).atanhee 0 = 0 := by simp [Ell.atanhee, atanhee, ltb_real, zero_real]
+  have h1 : 0 ≤ (⟨1, -1⟩ : Ell ℝ).atanhee 1 := by
+    have hepos : 0 < (⟨1, -1⟩ : Ell ℝ).e := (Proofs.ConicInit.ell_e_sq_prolate _ (by rw [he2]; norm_num)).1
+    simp only [Ell.atanhee, atanhee, ltb_real, zero_real, atan_real, mul_one]
+    have hn : ¬ ((0 : ℝ) < -1) := by norm_num
+    simp only [hn, decide_false, Bool.false_eq_true, if_false, show ((-1 : ℝ) < 0) from by norm_num, decide_true, if_true]
+    have : 0 ≤ Real.arctan (⟨1, -1⟩ : Ell ℝ).e := by rw [← Real.arctan_zero]; exact Real.arctan_strictMono.monotone hepos.le
+    positivity
+  simp only [zero_div, hz, hem]
+  nlinarith
+
+/-- on a sphere the authalic latitude is the geographic latitude -/
+theorem txif_closed_sphere (a tphi : ℝ) : txif (⟨a, 0⟩ : Ell ℝ) tphi = tphi := Proofs.ConicInit.txif_sphere a tphi
+
+/-- **Snyder's (15-8) on a prolate or spherical ellipsoid** (`es ≤ 0`, `e² = −es²`, the product `e² sinφ1 sinφ2 > −1`): the cone constant of the
+    two-parallel `Init` is `(ln m1 − ln m2)/(ln t1 − ln t2)` -/
+theorem lcc_n_snyder_prolate (E : Ell ℝ) (tphi1 tphi2 : ℝ) (h12 : tphi1 ≠ tphi2) (hes : E.es ≤ 0) (he2 : E.e2 = -(E.es ^ 2))
+    (hprod : -1 < E.es * (tphi2 / hyp tphi2) * (E.es * (tphi1 / hyp tphi1)))
+    (hψ : Real.arsinh tphi2 - eatanhe (tphi2 / hyp tphi2) E.es ≠ Real.arsinh tphi1 - eatanhe (tphi1 / hyp tphi1) E.es) :
+    (lccNraw E (tphi1 / hyp tphi1) tphi1 (hyp tphi1) (E.fm * tphi1) (hyp (E.fm * tphi1))
+        (tphi2 / hyp tphi2) tphi2 (hyp tphi2) (E.fm * tphi2) (hyp (E.fm * tphi2))).1 =
+      (Real.log (hyp (E.fm * tphi2)) - Real.log (hyp (E.fm * tphi1))) /
+        ((Real.arsinh tphi2 - eatanhe (tphi2 / hyp tphi2) E.es) - (Real.arsinh tphi1 - eatanhe (tphi1 / hyp tphi1) E.es)) :=
+  Proofs.ConicInit.lcc_n_snyder_gen E tphi1 tphi2 _ _ h12
+    (by rw [he2]; exact Proofs.ConicInit.Deatanhe_mul_prolate E.es _ _ hes hprod) hψ
+
+example : ∃ (E : Ell ℝ) (t1 t2 : ℝ), t1 ≠ t2 ∧ E.es ≤ 0 ∧ E.e2 = -(E.es ^ 2) ∧ -1 < E.es * (t2 / hyp t2) * (E.es * (t1 / hyp t1)) ∧
+    Real.arsinh t2 - eatanhe (t2 / hyp t2) E.es ≠ Real.arsinh t1 - eatanhe (t1 / hyp t1) E.es := by
+  have hes : (⟨1, 0⟩ : Ell ℝ).es = 0 := by simp [Ell.es, Ell.e2, ltb_real, zero_real, one_real, two_real]
+  have he2 : (⟨1, 0⟩ : Ell ℝ).e2 = 0 := by simp [Ell.e2]
+  refine ⟨⟨1, 0⟩, 0, 1, by norm_num, by rw [hes], by rw [hes, he2]; norm_num, by rw [hes]; norm_num, ?_⟩
+  rw [hes]
+  simp only [eatanhe, ltb_real, zero_real, lt_irrefl, decide_false, Bool.false_eq_true, if_false, neg_zero, zero_mul, sub_zero]
+  intro h
+  have := Real.arsinh_injective h
+  norm_num at this
+
+/-! ### (d) the series of `AlbersEqualArea`: the coded recurrences generate the Taylor coefficients of the limits -/
+
+/-- **`atanhxm1` (series branch) is Horner's rule for `Σ_{1 ≤ k < n} xᵏ/(2k+1)`**, the Taylor polynomial of `atanh(√x)/√x − 1` -/
+theorem atanhxm1_horner (x : ℝ) (n : ℕ) : atanhxm1Loop x n 0 = axPoly x n := Proofs.ConicSeries.atanhxm1Loop_zero x n
+
+/-- **…and that series converges to the closed form of the other branch**: `Σ_{k ≥ 1} xᵏ/(2k+1) = atanh(√x)/√x − 1` for `0 < x < 1` -/
+theorem atanhxm1_limit (x : ℝ) (hx0 : 0 < x) (hx1 : x < 1) :
+    HasSum (fun k : ℕ => axCoef (k + 1) * x ^ (k + 1)) (Real.log ((1 + Real.sqrt x) / (1 - Real.sqrt x)) / 2 / Real.sqrt x - 1) :=
+  Proofs.ConicSeries.atanhxm1_hasSum x hx0 hx1
+
+example : (0 : ℝ) < 1 / 4 ∧ (1 / 4 : ℝ) < 1 := by norm_num
+
+/-- **`DDatanhee1`: the coefficient the `t`/`c`/`z` recurrences build is the documented `c[l]`** —
+    `(x−y)(1−y)(1−x)·c[l] = (x−y) − (1−y)x^(2l+1) + (1−x)y^(2l+1)` — which is the second divided difference of `s^(2l+1)` on the nodes `1, x, y`,
+    i.e. the coefficient of `e2^l/(2l+1)` in `DDatanhee` (`atanhee(s) = Σ e2^l s^(2l+1)/(2l+1)`) -/
+theorem dd1_coefficient (x y : ℝ) (l : ℕ) :
+    (x - y) * (1 - y) * (1 - x) * dd1C x y l = (x - y) - (1 - y) * x ^ (2 * l + 1) + (1 - x) * y ^ (2 * l + 1) ∧
+      (x ≠ y → x ≠ 1 → y ≠ 1 → dd1C x y l = ((1 - y ^ (2 * l + 1)) / (1 - y) - (1 - x ^ (2 * l + 1)) / (1 - x)) / (y - x)) :=
+  ⟨Proofs.ConicSeries.dd1C_closed x y l, fun h1 h2 h3 => Proofs.ConicSeries.dd1C_is_dd x y l h1 h2 h3⟩
+
+/-- **the value `DDatanhee1` returns is a partial sum `Σ_{l=1}^{L} e2^l c[l]/(2l+1)` of that Taylor series** (`1 ≤ L ≤ 400`) -/
+theorem dd1_partial_sum (E : Ell ℝ) (x y : ℝ) : ∃ L, 1 ≤ L ∧ L ≤ 400 ∧ DDatanhee1 E x y = dd1Sum E.e2 x y L := by
+  rw [Proofs.ConicSeries.DDatanhee1_eq]
+  -- the first iteration is always executed
+  obtain ⟨L, h1, h2, h3⟩ := Proofs.ConicSeries.dd1_loop_partial E x y 399 1
+  rw [show (400 : ℕ) = 399 + 1 by norm_num, Proofs.ConicSeries.dd1_step]
+  split
+  · exact ⟨1, le_refl _, by norm_num, rfl⟩
+  · exact ⟨L, h1, by omega, h3⟩
+
+/-- **…and the series converges to the second divided difference of `atanhee`** (oblate ellipsoid, `e < 1`, distinct nodes in `[−1, 1]`) -/
+theorem dd1_limit (f e x y : ℝ) (hf : 0 < f) (he : 0 < e) (he1 : e < 1) (hx : |x| ≤ 1) (hy : |y| ≤ 1) (hxy : x ≠ y) (hx1 : x ≠ 1) (hy1 : y ≠ 1) :
+    HasSum (fun l : ℕ => (e ^ 2) ^ l * dd1C x y l / ((2 * l + 1 : ℕ) : ℝ))
+      (((atanhee f e 1 - atanhee f e y) / (1 - y) - (atanhee f e 1 - atanhee f e x) / (1 - x)) / (y - x)) :=
+  Proofs.ConicSeries.dd1_hasSum f e x y hf he he1 hx hy hxy hx1 hy1
+
+example : (0 : ℝ) < 1 / 300 ∧ (0 : ℝ) < 2 / 25 ∧ (2 / 25 : ℝ) < 1 ∧ |(1 / 2 : ℝ)| ≤ 1 ∧ |(3 / 4 : ℝ)| ≤ 1 ∧ (1 / 2 : ℝ) ≠ 3 / 4 ∧ (1 / 2 : ℝ) ≠ 1 ∧ (3 / 4 : ℝ) ≠ 1 := by
+  refine ⟨by norm_num, by norm_num, by norm_num, ?_, ?_, by norm_num, by norm_num, by norm_num⟩ <;> rw [abs_of_pos (by norm_num)] <;> norm_num
+
+/-- **`DDatanhee2`: the `c` recurrence of the inner loop generates the binomial coefficients `C(m+2, 2j+1)` for every `m`**; the coefficient
+    polynomial `t` of the `m`-th term is the odd part `R_{m+2}(e²)` (even `m`) or the even part `P_{m+2}(e²)` (odd `m`) of
+    `(1 + e)^(m+2) = P + e·R` — the numbers of the documented `C_m` -/
+theorem dd2_coefficient (q : ℝ) (K : ℕ) : dd2Coef q (2 * K) = Rsum q (2 * K + 2) ∧ dd2Coef q (2 * K + 1) = Psum q (2 * K + 3) :=
+  ⟨Proofs.ConicSeries.dd2Coef_even q K, Proofs.ConicSeries.dd2Coef_odd q K⟩
+
+/-- `(P, R)` obey Pascal's rule `(1 + e)^(n+1) = (1 + e)(P_n + e R_n)` and the norm identity `P² − e² R² = (1 − e²)ⁿ` -/
+theorem dd2_PR_recurrence (q : ℝ) (n : ℕ) :
+    Psum q (n + 1) = Psum q n + q * Rsum q n ∧ Rsum q (n + 1) = Psum q n + Rsum q n ∧ Psum q n ^ 2 - q * Rsum q n ^ 2 = (1 - q) ^ n :=
+  ⟨Proofs.ConicSeries.Psum_succ q n, Proofs.ConicSeries.Rsum_succ q n, Proofs.ConicSeries.PR_norm q n⟩
+
+/-- **the coefficients `a_0 = 1/(1−e²)`, `a_{m+1} = −t_m·ee_m` generated by the code are the Taylor coefficients of `d ↦ 1/(1 − e²(1 − d)²)`**
+    (the derivative of `atanhee` at `1 − d`): `(Σ_j a_j dʲ)·((1 − q) + 2q d − q d²) = 1` coefficient by coefficient, for every `m`;
+    `C_m = −a_{m+1}/(m + 2)` is its termwise integral and `(dx^(m+1) − dy^(m+1))/(dx − dy)` (the `xy` recurrence, `hsym`) the divided difference -/
+theorem dd2_taylor (q : ℝ) (hq : q ≠ 1) :
+    (1 - q) * dd2A q 0 = 1 ∧ (1 - q) * dd2A q 1 + 2 * q * dd2A q 0 = 0 ∧
+      ∀ j, (1 - q) * dd2A q (j + 2) + 2 * q * dd2A q (j + 1) - q * dd2A q j = 0 :=
+  Proofs.ConicSeries.dd2A_taylor q hq
+
+example : (-3 : ℝ) ≠ 1 := by norm_num
+
+/-- the `xy` recurrence `xy ← dx·xy + dy^m` is `(dy^(m+1) − dx^(m+1))/(dy − dx)` -/
+theorem dd2_xy (dx dy : ℝ) (m : ℕ) : (dy - dx) * hsym dy dx m = dy ^ (m + 1) - dx ^ (m + 1) := Proofs.ConicSeries.hsym_mul dy dx m
+
+/-- **for which `e²` a term vanishes identically**: term `m` does iff `R_{m+2}(e²) = 0` / `P_{m+2}(e²) = 0` (above); for `f = −1` (`e² = −3`) this
+    happens for `m = 4, 10, 16, …` (finding F61: `(1 + i√3)³ = −8` is real), and **two successive terms never vanish together** when `e² ≠ 1` -/
+theorem dd2_vanishing_terms (q : ℝ) (hq : q ≠ 1) (m k : ℕ) :
+    dd2Coef (-3 : ℝ) (6 * k + 4) = 0 ∧ ¬ (dd2Coef q m = 0 ∧ dd2Coef q (m + 1) = 0) :=
+  ⟨Proofs.ConicSeries.dd2Coef_minus_three k, Proofs.ConicSeries.dd2Coef_no_two_zero q hq m⟩
+
+/-! ### (e) the termination rule of `DDatanhee2` -/
+
+/-- **`DDatanhee2` stops only after two successive negligible terms** (or after 400 terms): the value returned is the partial sum
+    `dd2Sum … M = Σ_{j ≤ M} t_j ee_j xy_j/(j + 2)` for an `M` such that terms `M` and `M − 1` are both negligible (`¬ |s| ε/2 < |ds|`) -/
+theorem dd2_stops_after_two (E : Ell ℝ) (x y : ℝ) (he : E.e2m ≠ 0) :
+    ∃ M, M ≤ 400 ∧ DDatanhee2 E x y = dd2Sum E.e2 E.e2m (1 - x) (1 - y) M ∧
+      (M = 400 ∨ (2 ≤ M ∧ dd2Negl E.e2 E.e2m (1 - x) (1 - y) M ∧ dd2Negl E.e2 E.e2m (1 - x) (1 - y) (M - 1))) := by
+  rw [Proofs.ConicSeries.DDatanhee2_eq]
+  obtain ⟨M, _, h2, h3, h4⟩ := Proofs.ConicSeries.dd2_loop_spec E (1 - x) (1 - y) he 400 0 0 (by omega)
+  refine ⟨M, by omega, h3, ?_⟩
+  rcases h4 with h4 | ⟨h5, h6, h7⟩
+  · left; omega
+  · right
+    by_cases hM : M = 0 + 1
+    · rw [if_pos hM] at h7; omega
+    · rw [if_neg hM] at h7; exact ⟨by omega, h6, h7⟩
+
+example : (⟨1, -1⟩ : Ell ℝ).e2m ≠ 0 := by rw [(Proofs.ConicSeries.ell_minus_one).2]; norm_num
+
+/-- **the rule before 9562c37 stopped at the identically vanishing term**: for `f = −1`, `x = y = 3/4` the old loop (`DDatanhee2LoopOld`) returns the sum of
+    the terms `m ≤ 3` although term 5 is not negligible, whereas the repaired loop runs at least to term 6 -/
+theorem dd2_old_rule_refuted :
+    DDatanhee2LoopOld (⟨1, -1⟩ : Ell ℝ) (1 / 4) (1 / 4) 400 (dd2State (-3) 4 (1 / 4) (1 / 4) 0 0) = dd2Sum (-3 : ℝ) 4 (1 / 4) (1 / 4) 3 ∧
+      ¬ dd2Negl (-3 : ℝ) 4 (1 / 4) (1 / 4) 5 ∧
+      ∃ M, 6 ≤ M ∧ DDatanhee2Loop (⟨1, -1⟩ : Ell ℝ) (1 / 4) (1 / 4) 400 (dd2State (-3) 4 (1 / 4) (1 / 4) 0 0) = dd2Sum (-3 : ℝ) 4 (1 / 4) (1 / 4) M :=
+  ⟨Proofs.ConicSeries.dd2_old_rule_stops_early.1, Proofs.ConicSeries.dd2_old_rule_stops_early.2, Proofs.ConicSeries.dd2_new_rule_continues⟩
+
+end Deepening
 
 end GeoVerif.Props.C11
